@@ -185,22 +185,33 @@ theorem stripTrailingSlash_id (u : Str) (h : u.getLast? ≠ some 47) : stripTrai
 theorem mem_splitLastSlash_snd {c : Nat} {l : List Nat} (h : c ∈ (splitLastSlash l).2) : c ∈ l := by
   rw [← splitLastSlash_join l]; exact List.mem_append_right _ h
 
-/-- a URL without a comma has no segment parameters -/
-theorem splitSegParams_none (u : Str) (hu : 44 ∉ u) : splitSegParams u = some (u, []) := by
+/-- a URL without a comma in its last segment (after `strip_trailing_slash`) has no segment parameters -/
+theorem splitSegParams_none (u : Str) (hu : 44 ∉ (splitLastSlash (stripTrailingSlash u)).2) :
+    splitSegParams u = some (u, []) := by
   have hraw : splitSegParamsRaw u = (u, []) := by
     unfold splitSegParamsRaw
     have : (splitLastSlash (stripTrailingSlash u)).2.contains 44 = false := by
       rw [Bool.eq_false_iff]
       intro hc
       rw [List.contains_iff_mem] at hc
-      exact hu (mem_stripTrailingSlash (mem_splitLastSlash_snd hc))
+      exact hu hc
     dsimp only
     rw [this]; simp
   unfold splitSegParams
   rw [hraw]; simp [parseSubsegs]
 
+theorem lastSegCommaFree_iff (u : Str) :
+    lastSegCommaFree u = true ↔ 44 ∉ (splitLastSlash (stripTrailingSlash u)).2 ∧ 44 ∉ (splitLastSlash u).2 := by
+  unfold lastSegCommaFree
+  simp [List.contains_iff_mem]
+
+/-- in particular every URL without any comma -/
+theorem lastSegCommaFree_of_not_mem (u : Str) (hu : 44 ∉ u) : lastSegCommaFree u = true := by
+  rw [lastSegCommaFree_iff]
+  exact ⟨fun h => hu (mem_stripTrailingSlash (mem_splitLastSlash_snd h)), fun h => hu (mem_splitLastSlash_snd h)⟩
+
 /-- a parameter written after a comma-free URL is read back, and the URL with it -/
-theorem splitSegParams_joined (u k v : Str) (hu : 44 ∉ u)
+theorem splitSegParams_joined (u k v : Str) (hseg44 : 44 ∉ (splitLastSlash u).2)
     (hk : ∀ c ∈ k, isWs c = false ∧ c ≠ 44 ∧ c ≠ 47 ∧ c ≠ 61)
     (hv : ∀ c ∈ v, isWs c = false ∧ c ≠ 44 ∧ c ≠ 47) :
     splitSegParams (u ++ 44 :: (k ++ 61 :: v)) = some (u, [(k, v)]) := by
@@ -246,7 +257,6 @@ theorem splitSegParams_joined (u k v : Str) (hu : 44 ∉ u)
         subst this
         exact List.mem_reverse.mp hx
     exact hsuf47 this
-  have hseg44 : 44 ∉ (splitLastSlash u).2 := fun h => hu (mem_splitLastSlash_snd h)
   have hraw : splitSegParamsRaw (u ++ 44 :: (k ++ 61 :: v)) = (u, [k ++ 61 :: v]) := by
     unfold splitSegParamsRaw
     dsimp only
@@ -268,7 +278,7 @@ theorem splitSegParams_joined (u k v : Str) (hu : 44 ∉ u)
   simp only [parseSubsegs, splitOnFirst_append' 61 k v hk61]
   rw [trimWs_id k (fun c hc => (hk c hc).1), trimWs_id v (fun c hc => (hv c hc).1)]
 
-theorem joinSegParam_simple (u k v : Str) (hu : 44 ∉ u) :
+theorem joinSegParam_simple (u k v : Str) (hu : 44 ∉ (splitLastSlash (stripTrailingSlash u)).2) :
     joinSegParam u k v = some (u ++ 44 :: (k ++ 61 :: v)) := by
   unfold joinSegParam
   rw [splitSegParams_none u hu]
